@@ -722,6 +722,30 @@ inductive Plan (χ ρ ε α : Type) where
   | cartesian (l r : Plan χ ρ ε α)
   | apply (inp sub : Plan χ ρ ε α)
 
+/-- length of the longest operator path below the node (nested executions — the right side of a
+    CartesianProduct, the subquery of an Apply / EXISTS filter, the fallback of an IndexSeek — count
+    as children) -/
+def Plan.depth {χ ρ ε α : Type} : Plan χ ρ ε α → Nat
+  | .scan _ => 0
+  | .fail _ => 0
+  | .arg => 0
+  | .indexSeek _ _ fb => fb.depth + 1
+  | .filter _ inp => inp.depth + 1
+  | .filterExists sub inp => max inp.depth sub.depth + 1
+  | .project _ inp => inp.depth + 1
+  | .distinct inp => inp.depth + 1
+  | .unwind _ _ inp => inp.depth + 1
+  | .expand _ _ inp => inp.depth + 1
+  | .procedureCall _ _ inp => inp.depth + 1
+  | .fixup _ outer filtered => max outer.depth filtered.depth + 1
+  | .skip _ inp => inp.depth + 1
+  | .limit _ inp => inp.depth + 1
+  | .orderBy _ inp => inp.depth + 1
+  | .aggregate _ _ inp => inp.depth + 1
+  | .union _ l r => max l.depth r.depth + 1
+  | .cartesian l r => max l.depth r.depth + 1
+  | .apply inp sub => max inp.depth sub.depth + 1
+
 section run
 variable {χ ρ ν ε κ α : Type} [DecidableEq κ]
 
